@@ -130,7 +130,9 @@ CHECKS["C05"] = dict(
           "to the mean of loss(mean prediction) - loss(own prediction) (original mode = same theorem with the data-set imputer); "
           "IntervalSage recomputes iff forced or ordinal % interval_length = 0, over exactly the last min(#stored, storage_length) "
           "observations (via C07 on the regenerated window kernel), otherwise returns the previous values (no callback occurs in that "
-          "branch), seen = number of calls. Tied to batch.py/interval.py by exact-arithmetic correspondence."),
+          "branch), seen = number of calls. Tied to batch.py/interval.py by exact-arithmetic correspondence; additionally (soft tie) "
+          "BatchSage.explain_many is translated statement by statement on every run and Props/GenBatch.lean proves it equal to an effectful "
+          "model whose successful runs return the pure batchSage these theorems are about."),
     design_ref="DESIGN.md section 6, C05", note=TRUST_H + " names must be non-empty; original mode needs the names to cover the model's features.",
     technique="Lean 4 theorems over hand model (+ regenerated window kernel) + differential correspondence",
 )
@@ -140,7 +142,9 @@ CHECKS["C06"] = dict(
           "outside the subset; joint takes all subset features from ONE stored row, product each from some stored row, default from the "
           "configured values; exactly n predictions; empty subset gives n copies of the unperturbed prediction; meanOutput of n>=1 copies "
           "of an output with distinct labels is that output (faithfulness used by C01/C05). Non-modification of instance, subset and "
-          "storage is established by deep snapshots in the correspondence run (the model is pure)."),
+          "storage is established by deep snapshots in the correspondence run (the model is pure). Additionally (soft tie) MarginalImputer "
+          "and DefaultImputer are translated statement by statement on every run and Props/GenImputer.lean proves the generated impute equal "
+          "to this model with the row choices read off the sequence of randrange draws."),
     design_ref="DESIGN.md section 6, C06", note=TRUST_H,
     technique="Lean 4 theorems over hand model + differential correspondence with observable row provenance",
 )
